@@ -160,7 +160,7 @@ def make_rodded(S, n_ring=2, n_duct=1, wire=True, tdep=False, wwdir='clockwise',
         rr = region_rodded.RoddedRegion(
             'asm', n_ring, dims['P'], dims['D'], dims['Pw'], dims['Dw'], dims['D'] / 10,
             list(dims['ftf']), fr, cool, duct, None, None, None, None, 'DB', None,
-            spacer_grid=None, byp_ff=byp_ff, byp_k=None, wwdir=wwdir, sf=1.0, se2=se2)
+            spacer_grid=None, byp_ff=byp_ff, byp_k=None, wwdir=wwdir, sf=S.pos('shape_factor', 0.8, 1.5), se2=se2)
     rr._dims = dims
     return rr
 
@@ -313,7 +313,7 @@ def set_temps(S, rr, lo=600.0, hi=900.0):
 UR_MODULES = ['dassh.region_unrodded', 'dassh.region', 'dassh.material', 'dassh.subchannel', 'dassh.pin']
 
 
-def make_unrodded(S, model='simple', tdep=False, lowflow=False, mratio='atom', de_given=True):
+def make_unrodded(S, model='simple', tdep=False, lowflow=False, mratio='atom', de_given=True, gravity=None):
     """REAL SingleNodeHomogeneous / MultiNodeHomogeneous constructor on atoms"""
     ftf_in = S.pos('ftf_in', 0.10, 0.12)
     thk = S.pos('wall', 0.002, 0.004)
@@ -330,8 +330,9 @@ def make_unrodded(S, model='simple', tdep=False, lowflow=False, mratio='atom', d
         cf = mratio
     cls = region_unrodded.SingleNodeHomogeneous if model == 'simple' else region_unrodded.MultiNodeHomogeneous
     de = S.pos('de', 0.003, 0.01) if de_given else 0.0
+    kw = {} if gravity is None else dict(gravity=gravity)
     ur = cls('refl', 0.0, 1.0, ftf, vf, fr, cool, duct, None, eps=0.0, de=de,
-             convection_factor=cf, rr_equiv=None, lowflow=lowflow)
+             convection_factor=cf, rr_equiv=None, lowflow=lowflow, **kw)
     ur._ftf = ftf
     ur._cf = cf
     return ur
